@@ -1,0 +1,37 @@
+//go:build verif
+
+package client
+
+import (
+	"sync"
+	"time"
+)
+
+// This file is only compiled with the `verif` build tag. It gives the
+// verification harness (outside this repository) a way to observe and delay
+// selected points in the client package. Without the tag, verif_off.go
+// provides empty stand-ins.
+
+var verifHookMu sync.RWMutex
+var verifHook func(site string, args ...any)
+
+// VerifSetHook registers the callback invoked at instrumented sites.
+func VerifSetHook(f func(site string, args ...any)) {
+	verifHookMu.Lock()
+	verifHook = f
+	verifHookMu.Unlock()
+}
+
+func verifEvent(site string, args ...any) {
+	verifHookMu.RLock()
+	f := verifHook
+	verifHookMu.RUnlock()
+	if f != nil {
+		f(site, args...)
+	}
+}
+
+// VerifScheduleActive evaluates the (unexported) schedule window logic.
+func VerifScheduleActive(start, end string, weekdays []time.Weekday, dates []string, t time.Time) (bool, error) {
+	return newSchedule(start, end, weekdays, dates).activeForTime(t)
+}
